@@ -104,11 +104,17 @@ Definition check_source (text : bytes) (e : env) (obs : srobs) : bool :=
   | _, _ => false
   end.
 
-(* strconv.Quote(s) = q: one String token, nothing else, that unquotes to s *)
+(* strconv.Quote(s) = q: starts with a double quote, is one String token -- alone and with text behind it --
+   and unquotes to s (the hypotheses quote_head, quote_lex, vq_cond of the byte-level theorems) *)
 Definition check_quote (s q : bytes) : bool :=
   match lex q with
   | Some [t] => tokty_eqb (t_ty t) TString && bytes_eqb (t_val t) q &&
-                option_eqb bytes_eqb (go_unquote q) (Some s)
+                option_eqb bytes_eqb (go_unquote q) (Some s) &&
+                match q with b :: _ => byte_eqb b x22 | [] => false end &&
+                match lex_one (q ++ [x20; x41; x22]) with
+                | Some (Some TString, n) => Nat.eqb n (List.length q)
+                | _ => false
+                end
   | _ => false
   end.
 
